@@ -165,6 +165,18 @@ def gen_histories(tier, rng):
     for _ in range(n):
         k = rng.randint(3, 9)
         hs.append([{"dev": rng.choice(DEVS), "items": rng.choice(L)} for _ in range(k)])
+    # LONG lines: seven to eleven items separated by commas, long strings in front of a comma, columns built up over several
+    # statements that end in a separator - the zones go on every 14 columns however far right the line has got
+    for d in DEVS:
+        for n in (7, 8, 9, 11):
+            row = []
+            for i in range(n):
+                row += [num_item(11 * (i + 1)), COMMA]
+            hs.append([{"dev": d, "items": row + [str_item(S("end"))]}])
+            hs.append([{"dev": d, "items": [num_item(i + 1), COMMA]} for i in range(n)] + [{"dev": d, "items": [str_item(S("end"))]}])
+        for ln in (69, 70, 83, 84, 85, 90, 97, 98, 99, 111, 112, 140):
+            hs.append([{"dev": d, "items": [str_item(S("-" * ln)), COMMA, str_item(S("x")), COMMA, num_item(5)]}])
+            hs.append([{"dev": d, "items": [str_item(S("-" * ln)), SEMI]}, {"dev": d, "items": [COMMA, str_item(S("x"))]}])
     # a statement that runs in the middle of another one, on another device (inside a FUNCTION called from one of its items):
     # each of the two comes out whole on its own device, pending lines included
     withint = [l for l in L if any(i["k"] == "num" and i.get("ty", "I") == "I" and "c" not in i and not i.get("neg0") for i in l)]
